@@ -133,6 +133,9 @@ def run_ctor(case):
         ("labels= + dims", lambda: da.DimArray(vals, labels=[list(l) for l in labels], dims=tuple(dims))),
         ("(name, labels) pairs", lambda: da.DimArray(vals, axes=[(d, list(l)) for d, l in zip(dims, labels)])),
         ("Axis objects", lambda: da.DimArray(vals, axes=[da.Axis(x.copy(), d) for d, x in zip(dims, larr)])),
+        # (name, labels) pairs whose labels are ready-made Axis objects carrying ANOTHER name (e.g. another array's axis): the pair names the dimension
+        ("(name, Axis of another name) pairs", lambda: da.DimArray(vals, axes=[(d, da.Axis(x.copy(), "other_" + d)) for d, x in zip(dims, larr)])),
+        ("(name, one Axis for all) pairs", lambda: da.DimArray(vals, axes=[(d, da.Axis(x.copy(), dims[0] if dims else "z")) for d, x in zip(dims, larr)])),
         ("Axes object", lambda: da.DimArray(vals, axes=da.Axes([da.Axis(x.copy(), d) for d, x in zip(dims, larr)]))),
         ("dict + dims", lambda: da.DimArray(vals, axes={d: list(l) for d, l in zip(dims, labels)}, dims=list(dims))),
         ("dict (reversed key order) + dims", lambda: da.DimArray(vals, axes={d: list(l) for d, l in list(zip(dims, labels))[::-1]}, dims=list(dims))),
@@ -152,6 +155,7 @@ def run_ctor(case):
     if nd == 1:
         forms.append(("1-d: (name, labels) tuple", lambda: da.DimArray(vals, (dims[0], larr[0].copy()))))
         forms.append(("1-d: labels, name", lambda: da.DimArray(vals, larr[0].copy(), dims[0])))
+        forms.append(("1-d: (name, Axis of another name) tuple", lambda: da.DimArray(vals, (dims[0], da.Axis(larr[0].copy(), "other_")))))
     for name, f in forms:
         what = "constructor form '%s' dims=%s labels=%s" % (name, dims, labels)
         res = lib(f, what=what, sig=sig)
@@ -160,7 +164,8 @@ def run_ctor(case):
         sub.append((core.digest([spec, name]), nd >= 1))
     # helpers: same axes, prescribed fill
     if nd:
-        helpers = [("zeros", lambda: da.zeros(axes=[x.copy() for x in larr], dims=list(dims)), 0.0), ("ones pairs", lambda: da.ones(axes=[(d, list(l)) for d, l in zip(dims, labels)]), 1.0),
+        helpers = [("zeros", lambda: da.zeros(axes=[x.copy() for x in larr], dims=list(dims)), 0.0),
+                   ("zeros (name, Axis of another name) pairs", lambda: da.zeros(axes=[(d, da.Axis(x.copy(), "other_" + d)) for d, x in zip(dims, larr)]), 0.0), ("ones pairs", lambda: da.ones(axes=[(d, list(l)) for d, l in zip(dims, labels)]), 1.0),
                    ("nans Axis", lambda: da.nans(axes=[da.Axis(x.copy(), d) for d, x in zip(dims, larr)]), float("nan")),
                    ("empty", lambda: da.empty(axes=[x.copy() for x in larr], dims=list(dims)), None),
                    ("zeros_like", lambda: da.zeros_like(ref), 0), ("ones_like", lambda: da.ones_like(ref), 1), ("nans_like", lambda: da.nans_like(ref), float("nan")),
